@@ -726,9 +726,54 @@ def check_C12(tier):
                                   "only token locations are verdict-bearing there"])
 
 
-CHECKS = {"C12": check_C12, "C11": check_C11, "C17": check_C17, "C09": check_C09, "C10": check_C10, "C01": check_C01, "C02": check_C02, "C05": check_C05, "C06": check_C06, "C07": check_C07,
+# ---------------------------------------------------------------------------
+# C13: error positions (MC_Err.tla faults, MC_Front.tla rejected token sequences)
+
+def err_cfg(family, n, mode):
+    return gen_cfg(family, n, emit="none", invariants=("EmitErr",), extra={"ErrMode": mode})
+
+
+C13_FAMILIES = {"quick": {"compile": [("logic", 3), ("access", 3), ("builtin", 4), ("coll", 3)],
+                          "run": [("logic", 4), ("arith", 3), ("builtin", 4), ("mixed", 3)]},
+                "thorough": {"compile": [("logic", 4), ("access", 4), ("builtin", 5), ("coll", 4), ("string", 4)],
+                             "run": [("logic", 5), ("arith", 4), ("builtin", 5), ("mixed", 4), ("access", 4)]}}
+
+
+def stages_C13(tier):
+    out = []
+    for fam, n in C13_FAMILIES[tier]["compile"]:
+        out.append(Stage("compile-%s-n%d" % (fam, n), "MC_Err", err_cfg(fam, n, "compile"), "C13",
+                         modes="struct:opt,struct:noopt", timeout=2400))
+    for fam, n in C13_FAMILIES[tier]["run"]:
+        out.append(Stage("run-%s-n%d" % (fam, n), "MC_Err", err_cfg(fam, n, "run"), "C13",
+                         modes="struct:opt,struct:noopt", timeout=2400))
+    for alpha, n in C11_SEQS[tier]:
+        out.append(Stage("seq-%s-len%d" % (alpha, n), "MC_Front", seq_cfg(alpha, n), "C13", timeout=2400))
+    return out
+
+
+C13_RULE = ("TLC (MC_Err.tla): every well-typed expression of the families up to the node budget x every leaf x ten "
+            "compile faults (unknown identifier, field, method, function; six operator/operand type mismatches) and - at "
+            "int-typed leaves - five run-time faults (modulo by zero, panicking function, nil function, field of a nil "
+            "pointer, index out of range) under every assignment for which the reference semantics evaluates the "
+            "unfaulted expression successfully and the faulted one fails (so exactly the injected operation fails); the "
+            "expected (line, column) of the fault's anchor token is computed from the token sequence under a one-line "
+            "and an irregular multi-line layout, and behind a string of 2-, 3- and 4-byte runes; plus every token "
+            "sequence of the C11 alphabets that the reference grammar rejects at a token (MC_Front.tla), with the "
+            "position of that token, also with multi-byte identifiers. The real Compile / Run / Parse error must be a "
+            "*file.Error naming exactly that position, lying inside the source, with the source line as snippet")
+
+
+def check_C13(tier):
+    return run_check("C13", tier, stages_C13(tier), C13_RULE,
+                     assumptions=["anchors: the name token for names, the operator token for operators, `[` for an index "
+                                  "(DESIGN.md section 6 C13); lexical errors and end-of-input errors are checked for "
+                                  "InsideSource only", "TLC evaluates Grammar!PosOfTok and Sem!Eval as written"])
+
+
+CHECKS = {"C13": check_C13, "C12": check_C12, "C11": check_C11, "C17": check_C17, "C09": check_C09, "C10": check_C10, "C01": check_C01, "C02": check_C02, "C05": check_C05, "C06": check_C06, "C07": check_C07,
           "C14": check_C14, "C15": check_C15, "C18": check_C18}
-STAGES = {"C12": stages_C12, "C11": stages_C11, "C17": stages_C17, "C09": stages_C09, "C10": stages_C10, "C01": stages_C01, "C02": stages_C02, "C05": stages_C05, "C06": stages_C06, "C07": stages_C07,
+STAGES = {"C13": stages_C13, "C12": stages_C12, "C11": stages_C11, "C17": stages_C17, "C09": stages_C09, "C10": stages_C10, "C01": stages_C01, "C02": stages_C02, "C05": stages_C05, "C06": stages_C06, "C07": stages_C07,
           "C14": stages_C14, "C15": stages_C15, "C18": stages_C18}
 
 
